@@ -319,6 +319,55 @@ def run(seed=0, n_random=25, full=True):
             if not ok:
                 g['fail'].append('%r.search(%r): span axioms contradict CPython' % (pat.pattern, s))
 
+    # ---- Pattern.match(s, pos) for context-free patterns; minimum width; sub identity ---------------
+    g = group('re.Pattern.match(s, pos) / min width / sub identity')
+    cf = [re.compile(r'(&(#?)(x?)(\d{1,5}|\w{1,8});)'), re.compile(r'(a)|(bc)')]
+    subjects = strings[:10] + ['&amp;x', 'a&#38;b', '&;', 'x&lt;&gt;', 'abc', 'bca&#x41;']
+    for pat in cf:
+        g['n'] += 1
+        if not models.context_free(pat):
+            g['fail'].append('%r is not recognised as context-free' % pat.pattern)
+        for s in subjects:
+            for pos in sorted({0, 1, 2, len(s), len(s) + 2, -1, rnd.randrange(0, len(s) + 1)}):
+                m = pat.match(s, pos)
+                I = new_interp()
+                vm = models.pattern_method(I, pat, 'match', [VStr(s), VInt(pos)], {})
+                facts = [vm.none == z3.BoolVal(m is None)]
+                if m is not None:
+                    for k in range(pat.groups + 1):
+                        facts.append(vm.val.isnone(k) == z3.BoolVal(m.group(k) is None))
+                        facts.append(vm.val.start(k) == m.start(k))
+                        facts.append(vm.val.end(k) == m.end(k))
+                g['n'] += 1
+                ok, _ = admits(I, facts)
+                if not ok:
+                    g['fail'].append('%r.match(%r, %d): shifted-span model contradicts CPython' % (pat.pattern, s, pos))
+    for pat in (re.compile(r'\\\s*$', re.M), re.compile(r'(&(#?)(x?)(\d{1,5}|\w{1,8});)')):
+        for s in subjects + ['a \\\n b', 'x\\']:
+            I = new_interp()
+            out = models.pattern_method(I, pat, 'sub', [lit('\n'), VStr(z3.String(fresh_name('subj')))], {})
+            # the subject is symbolic (a constant subject is evaluated exactly): bind it afterwards
+            subj = [a for a in z3.z3util.get_vars(out.t)][0] if z3.z3util.get_vars(out.t) else None
+            g['n'] += 1
+            if subj is None:
+                continue
+            ok, _ = admits(I, [subj == z3.StringVal(s), out.t == z3.StringVal(pat.sub('\n', s))])
+            if not ok:
+                g['fail'].append('%r.sub(NL, %r): identity fact contradicts CPython' % (pat.pattern, s))
+
+    g = group('bytes.lstrip/rstrip(SET)')
+    import codecs as _codecs
+    sets = [_codecs.BOM_UTF16_BE, _codecs.BOM_UTF32_BE, b'\x00', b'ab']
+    datas = [b'', b'\xfe\xff\x00<', b'\x00\x00\xfe\xff\x00\x00\x00<', b'\xfe\xff\xff\x21', b'abba c', b'\x00\x00',
+             b'<\x00\xfe']
+    for cs in sets:
+        for d in datas:
+            for meth in ('lstrip', 'rstrip'):
+                I = new_interp()
+                vb = VBytes(z3.StringVal(d.decode('latin-1')))
+                r_ = models.bytes_method(I, vb, meth, [lit(cs)], {})
+                check_value(g, '%r.%s(%r)' % (d, meth, cs), I, r_.t, getattr(d, meth)(cs).decode('latin-1'))
+
     # ---- hint lemmas ------------------------------------------------------------------------------
     g = group('SUBSTR-TRANS lemma')
     from .prims import p_substr_lemma
